@@ -72,8 +72,23 @@ fn plan(parser: &str, blocks: usize) -> (Vec<u8>, Vec<u8>, Vec<u8>, usize, usize
                   b"1 -2 3 0\n-4 5\n 6 -77 0\nc a comment line in between\n100000 -99999 12345 678 9 -1 0\n\n8 0\n".to_vec(), vec![], 4, 31),
         // long runs of consecutive comment lines: each comment is an item of its own
         "cnfc" => (b"p cnf 10 0\n".to_vec(), b"c a comment line\nc another comment line, a bit longer\nc\n".to_vec(), b"1 -2 0\n".to_vec(), 0, 37),
+        // long runs of blank and whitespace-only lines: each is passed over on its own
+        "cnfb" => (b"p cnf 10 0\n".to_vec(), b"\n \n\t\n\n".to_vec(), b"1 -2 0\n".to_vec(), 0, 8),
+        "btor2b" => (b"1 sort bitvec 8\n".to_vec(), b"\n \n\n  \n".to_vec(), b"2 input 1\n".to_vec(), 0, 16),
         // comment lines that look like the sampling-set extension ("c ind ... 0"): still just comments
         "cnfi" => (b"p cnf 50 0\n".to_vec(), b"c ind 1 2 3 4 5 6 7 8 9 10 0\nc ind 11 12 13 0\n1 -2 0\n".to_vec(), vec![], 1, 29),
+        // every line declares a new sort or uses the one before: distinct ids all the way (materialised, a few MiB)
+        "btor2s" => {
+            let mut doc: Vec<u8> = vec![];
+            let mut id = 0u64;
+            while doc.len() < blocks * 16 {
+                id += 1;
+                doc.extend_from_slice(format!("{} sort bitvec 8\n", id).as_bytes());
+                id += 1;
+                doc.extend_from_slice(format!("{} input {}\n", id, id - 1).as_bytes());
+            }
+            (doc, b"3 sort bitvec 1\n".to_vec(), vec![], 0, 40)
+        }
         "btor2c" => (b"1 sort bitvec 8\n".to_vec(), b"; a comment line\n; another comment line, a bit longer\n;\n".to_vec(), b"2 input 1\n".to_vec(), 3, 37),
         // streams that END IN AN ERROR: the memory bound holds up to and including the failing item, whatever it announces
         "btor2e" => (b"1 sort bitvec 8\n".to_vec(), b"2 input 1 name ; comment text\n3 not 1 2\n4 and 1 2 3 sym\n".to_vec(),
@@ -103,7 +118,7 @@ fn plan(parser: &str, blocks: usize) -> (Vec<u8>, Vec<u8>, Vec<u8>, usize, usize
 fn drive(parser: &str, reader: DeferredReader<'static>) -> Result<u64, String> {
     let mut items = 0u64;
     match parser {
-        "cnf" | "cnfc" | "cnfe" | "cnfi" => {
+        "cnf" | "cnfc" | "cnfe" | "cnfi" | "cnfb" => {
             let mut p = flussab_cnf::cnf::Parser::<i32>::new(LineReader::new(reader), Default::default()).map_err(|e| e.to_string())?;
             while let Some(c) = p.next_clause().map_err(|e| e.to_string())? {
                 items += 1 + (c.len() as u64 & 0);
@@ -193,15 +208,53 @@ pub fn run_bigreq(opts: &HashMap<String, String>) -> i32 {
                 "got":got.min(2_000_000_000),"err":err,"complete":complete,"panic":panic}));
         }
     }
+    // look-ahead of megabytes, then a much smaller chunk size: the window stays what it was
+    struct Pat(usize, usize);
+    impl Read for Pat {
+        fn read(&mut self, buf: &mut [u8]) -> io::Result<usize> {
+            let n = buf.len().min(self.1 - self.0);
+            for (i, b) in buf[..n].iter_mut().enumerate() {
+                let x = (self.0 + i) as u64;
+                *b = ((x.wrapping_mul(0x9E37_79B9_7F4A_7C15) >> 29) ^ x) as u8;
+            }
+            self.0 += n;
+            Ok(n)
+        }
+    }
+    let pat = |p: usize| -> u8 { let x = p as u64; ((x.wrapping_mul(0x9E37_79B9_7F4A_7C15) >> 29) ^ x) as u8 };
+    for (big, adv, small) in [(4usize << 20, 2usize << 20, 65536usize), (8 << 20, 7 << 20, 16), (2 << 20, 1 << 20, 16384), (3 << 20, (3 << 20) - 5, 1)] {
+        let total = 3 * big;
+        let r = crate::catch(|| {
+            let mut reader = DeferredReader::from_read(Pat(0, total));
+            reader.set_chunk_size(big);
+            let have = reader.request(adv + 100_000).len();
+            reader.advance(adv);
+            reader.set_chunk_size(small);
+            let mut ok = reader.buf().iter().enumerate().all(|(i, &b)| b == pat(adv + i));
+            let before = reader.buf_len();
+            reader.request_more();
+            ok = ok && reader.buf().iter().enumerate().all(|(i, &b)| b == pat(adv + i)) && reader.buf_len() >= before;
+            let want = have - adv + 70_000;
+            let got = reader.request(want).len();
+            ok = ok && reader.buf().iter().enumerate().all(|(i, &b)| b == pat(adv + i)) && reader.position() == adv;
+            (want, got, ok, reader.io_error().is_some(), reader.is_complete())
+        });
+        let (want, got, ok, err, complete, panic) = match r {
+            Ok((w, g, ok, e, c)) => (w, g, ok, e, c, false),
+            Err(_) => (0, 0, false, false, false, true),
+        };
+        trace::rec(json!({"ev":"bigshrink","total":total,"chunk":big,"advanced":adv,"new_chunk":small,"want":want,"got":got,
+            "window_ok":ok,"err":err,"complete":complete,"panic":panic}));
+    }
     trace::close();
-    println!("{{\"runs\":6}}");
+    println!("{{\"runs\":10}}");
     0
 }
 
 pub fn run(opts: &HashMap<String, String>) -> i32 {
     let out: String = opt(opts, "out", "stream.ndjson".to_string());
     let sizes: String = opt(opts, "bytes", "1048576".to_string());
-    let parsers: String = opt(opts, "parsers", "cnf,cnfc,cnfe,cnfi,wcnf,gcnf,log,aag,aage,aig,btor2,btor2c,btor2e".to_string());
+    let parsers: String = opt(opts, "parsers", "cnf,cnfc,cnfe,cnfi,cnfb,wcnf,gcnf,log,aag,aage,aig,btor2,btor2c,btor2e,btor2s,btor2b".to_string());
     let chunks: String = opt(opts, "chunks", "16,256,16384,1048576".to_string());
     trace::open(&out);
     let mut n = 0;
